@@ -187,7 +187,9 @@ def part_a(case, v, log, stats):
       mod.clear()
     log.add(k, m, op.get('name'))
     # ---- after every op: every map answers every suffix like its model ----
-    qs = suffixes(ever) + ['zz', 'a.zz']
+    # (queries nobody stored, including ones that use the tree's own marker)
+    qs = suffixes(ever) + ['zz', 'a.zz', '$', '$.a', 'a.$', '$.' + (
+        sorted(ever)[0] if ever else 'b')]
     for mi, (rm, mm) in enumerate(zip(maps, models)):
       what = 'map %d after %s' % (mi, {kk: vv for kk, vv in op.items()
                                        if kk != 'pick'})
